@@ -160,3 +160,55 @@ Proof.
   - exact (fullb_invariant veq heq vdefault on_diff on_param init R param H1 H2 H3 H4 H5 H6 capacity okd limit0 evs).
 Qed.
 Print Assumptions C13_full_stack_batched_invariant.
+
+(* ---------------- stacks of BATCHED adapters as nested loops (ChainViewB.v) ----------------
+   Real stacked batched adapters are nested poll loops without ready buffers, each level pulling
+   whole batches from the level below (ChainPollB.chain_poll_b).  For stacks of any height whose
+   stages satisfy the one-step statements: one poll of the top consumes a WHOLE NUMBER k of source
+   batches (k = 0 exactly for a batch produced by a limit change), a batch it hands out is never
+   empty and applicable to the consumer's view, and afterwards every level's state stands for the
+   view of the level below, the bottom one for the source after those k whole batches: the consumer
+   never sees a state inside a source batch, at any level of the stack.  At Pending the queue is
+   empty, every leaf holds the waker, and the view is the composition of the stages' views; and
+   the stack always answers. *)
+From EB Require Import ChainPollB ChainPollBFacts ChainViewB.
+
+Theorem C13_lazy_batched_chain_lands_on_whole_source_batches :
+  forall (A : Type) (depth fuel : nat) (cc : cchain_b (A:=A)) (l v lq : list A) c' r tr,
+    chain_view_b cc l v ->
+    apply_all_ok (concat (fst (snd cc))) l = Some lq ->
+    chain_poll_b depth fuel (erase_b cc) = Ok (c', r, tr) ->
+    exists (cc' : cchain_b) (l' : list A) (k : nat),
+      erase_b cc' = c' /\ Forall2 evolves_b (fst cc) (fst cc') /\
+      k <= length (fst (snd cc)) /\
+      apply_all_ok (concat (firstn k (fst (snd cc)))) l = Some l' /\
+      fst (snd cc') = skipn k (fst (snd cc)) /\
+      apply_all_ok (concat (fst (snd cc'))) l' = Some lq /\
+      match r with
+      | Ready (Some ds) =>
+          (fst cc <> [] -> ds <> []) /\
+          exists v1, apply_all_ok ds v = Some v1 /\ chain_view_b cc' l' v1
+      | _ => chain_view_b cc' l' v
+      end.
+Proof. intro A. exact (@chain_poll_b_view A). Qed.
+Print Assumptions C13_lazy_batched_chain_lands_on_whole_source_batches.
+
+Theorem C13_lazy_batched_chain_view_at_pending_and_answers :
+  forall (A : Type) (cc : cchain_b (A:=A)) (l v lq : list A),
+    chain_view_b cc l v ->
+    apply_all_ok (concat (fst (snd cc))) l = Some lq ->
+    (forall depth fuel c' tr,
+       chain_poll_b depth fuel (erase_b cc) = Ok (c', Pending, tr) ->
+       exists cc' : cchain_b,
+         erase_b cc' = c' /\ Forall2 evolves_b (fst cc) (fst cc') /\
+         snd cc' = ([], false) /\ all_registered_b c' tr /\ chain_view_b cc' lq v) /\
+    drains_b (erase_b cc) /\
+    exists F res, forall depth fuel, length (fst cc) <= depth -> F <= fuel ->
+      chain_poll_b depth fuel (erase_b cc) = Ok res.
+Proof.
+  intros A cc l v lq H1 H2. split; [|split].
+  - intros depth fuel c' tr H. exact (chain_b_view_at_pending depth fuel cc l v lq c' tr H1 H2 H).
+  - exact (chain_view_b_drains cc l v lq H1 H2).
+  - exact (chain_b_always_answers cc l v lq H1 H2).
+Qed.
+Print Assumptions C13_lazy_batched_chain_view_at_pending_and_answers.
